@@ -165,6 +165,18 @@ Definition strip_operator (key : str) (adding : bool) : str :=
   if str_eqb key s_append || str_eqb key s_merge then []
   else erase_last key (if adding then s_add else s_equ).
 
+(* the loop of MergeTree, parameterised by the editor of one entry *)
+Section MergeLoop.
+  Variable ed : str -> item -> item -> item * bool.
+  Fixpoint merge_loop (m : list (str * item)) (top : item) : item * bool :=
+    match m with
+    | [] => (top, true)
+    | (k, v) :: m' =>
+        let '(top', ok) := ed k v top in
+        if ok then merge_loop m' top' else (top', false)
+    end.
+End MergeLoop.
+
 (** EditNode / MergeTree / AppendTo* on an unshared tree.  [top] is the value
     held by the dependency's target slot, [path] the keys from it down to the
     node that plays "head".  Result: new [top] and the success flag; effects of
@@ -196,26 +208,14 @@ Fixpoint edit_node (value : item) (top : item) (path : list str) (key : str) (mt
             end
           else (top, false)
       | Map vm =>
-          if merging then
-            (fix merge (m : list (str * item)) (top : item) : item * bool :=
-               match m with
-               | [] => (top, true)
-               | (k, v) :: m' =>
-                   let '(top', ok) := edit_node v top tp k true in
-                   if ok then merge m' top' else (top', false)
-               end) vm top
+          if merging then merge_loop (fun k v top => edit_node v top tp k true) vm top
           else (top, false)
       end
     else (write_keys top tp value, true)
   end.
 
-Fixpoint merge_tree (m : list (str * item)) (top : item) (path : list str) : item * bool :=
-  match m with
-  | [] => (top, true)
-  | (k, v) :: m' =>
-      let '(top', ok) := edit_node v top path k true in
-      if ok then merge_tree m' top' path else (top', false)
-  end.
+Definition merge_tree (m : list (str * item)) (top : item) (path : list str) : item * bool :=
+  merge_loop (fun k v top => edit_node v top path k true) m top.
 
 (** PatchLiteral::Resolve: every entry is attempted *)
 Fixpoint patch_literal (m : list (str * item)) (top : item) : item * bool :=
